@@ -156,7 +156,12 @@ func GenerateSolo(r *lp.Rng, index int) *Design {
 		Result: &Att{Type: &Type{IsObject: true, Object: []*Field{
 			{Name: "names", Att: &Att{Type: &Type{Ref: "NameList"}}},
 			{Name: "items", Att: &Att{Type: &Type{Array: &Att{Type: &Type{Prim: "Int"}}}}},
-			{Name: "plain", Att: &Att{Type: &Type{Array: &Att{Type: &Type{Prim: "String"}}}}}}}, Required: []string{"names", "items"}}})
+			{Name: "plain", Att: &Att{Type: &Type{Array: &Att{Type: &Type{Prim: "String"}}}}},
+			// required AND defaulted: a zero value is still sent
+			{Name: "count", Att: &Att{Type: &Type{Prim: "Int"}, HasDef: true, Default: 3}},
+			{Name: "flag", Att: &Att{Type: &Type{Prim: "Boolean"}, HasDef: true, Default: true}},
+			{Name: "label", Att: &Att{Type: &Type{Prim: "String"}, HasDef: true, Default: "dflt"}}}},
+			Required: []string{"names", "items", "count", "flag", "label"}}})
 	_ = r
 	return d
 }
